@@ -3,6 +3,7 @@
 import re
 
 import mir
+import ordering
 from mir import short, is_place, op_local
 from props import c18
 
@@ -41,60 +42,32 @@ def r7a(prog, rep):
     if pc.d['span']['exp'].startswith('m:') or oc.d['span']['exp'].startswith('m:'):
         rep.violation('R7a', 'derived-ordering', fn=pc.name, detail='the ordering of Tx is derived (compares all fields in declaration order)')
         return
-    reads = {1: set(), 2: set()}
-    for b in pc.blocks.values():
-        for s in b['stmts']:
-            for pl in pc.stmt_sources(s):
-                for (of, f) in mir.place_fields(pl):
-                    if of == TX and pl['l'] in (1, 2):
-                        reads[pl['l']].add(f)
-        t = b['term']
-        if t and t['t'] == 'call':
-            for a in t['args']:
-                if is_place(a):
-                    for (of, f) in mir.place_fields(a['pl']):
-                        if of == TX and a['pl']['l'] in (1, 2):
-                            reads[a['pl']['l']].add(f)
-    want = {'settlement_date', 'read_index'}
-    other_calls = [c for c in pc.calls if prog.resolve(c.callee, pc.crate) is not None]
-    if reads[1] == want and reads[2] == want and not other_calls:
-        rep.ok('R7a', 'order-key-fields', fn=pc.name, where='%s:%d' % (pc.file, pc.line), detail='self and other are read only at settlement_date and read_index')
-    else:
-        rep.violation('R7a', 'order-key-fields', fn=pc.name, where='%s:%d' % (pc.file, pc.line),
-                      detail='Tx ordering reads self.%s / other.%s%s; the processing order must be exactly (settlement_date, read_index)'
-                             % (sorted(reads[1]), sorted(reads[2]), ' and calls %s' % other_calls[0].callee if other_calls else ''))
-    # read_index is compared only when the dates are equal
-    cmps = [c for c in pc.calls if c.decl.endswith('::cmp') or c.decl.endswith('::partial_cmp')]
-    date_cmp = [c for c in cmps if any(f == 'settlement_date' for of, f in mir.provenance(pc, c.args[0]).fields)]
-    idx_cmp = [c for c in cmps if any(f == 'read_index' for of, f in mir.provenance(pc, c.args[0]).fields)]
-    ok = False
-    why = 'no date/read-index comparison pair found'
-    if date_cmp and idx_cmp:
-        dc, ic = date_cmp[0], idx_cmp[0]
-        a0 = mir.provenance(pc, dc.args[0]).params
-        a1 = mir.provenance(pc, dc.args[1]).params
-        b0 = mir.provenance(pc, ic.args[0]).params
-        b1 = mir.provenance(pc, ic.args[1]).params
-        if a0 != b0 or a1 != b1 or a0 == a1:
-            why = 'the two comparisons do not compare self with other in the same direction'
+    # the value each of the two functions returns, as a lexicographic chain of key comparisons (lib/ordering.py): whichever of the two
+    # holds the logic, through helpers, `match`, then / then_with
+    want = [((1, ('settlement_date',)), (2, ('settlement_date',))), ((1, ('read_index',)), (2, ('read_index',)))]
+    chains = {f.name: ordering.chain_of_fn(prog, f) for f in (pc, oc)}
+    for f in (pc, oc):
+        ch = chains[f.name]
+        where = '%s:%d' % (f.file, f.line)
+        sfx = '' if f is pc else '|cmp'
+        keys = None if ch is None else {k for pair in ch for k in pair}
+        if ch is not None and keys == {k for pair in want for k in pair} and all(a[1] == b[1] and (a[0], b[0]) == (1, 2) for a, b in ch):
+            rep.ok('R7a', 'order-key-fields' + sfx, fn=f.name, where=where, detail='compares ' + ordering.fmt(ch))
+            if ch == want:
+                rep.ok('R7a', 'tie-break-on-equal-only' + sfx, fn=f.name, where=where,
+                       detail='read_index is compared only on the Equal outcome of the settlement-date comparison')
+            else:
+                rep.violation('R7a', 'tie-break-on-equal-only' + sfx, fn=f.name, where=where,
+                              detail='the order is %s; it must be settlement date first, read index on equal dates only' % ordering.fmt(ch))
         else:
-            for (sbb, discr, vals, neg) in pc.conditions_at(ic.bb):
-                d = mir.provenance(pc, discr)
-                if dc in d.calls and vals == [0]:
-                    ok = True
-            if not ok:
-                why = 'the read_index comparison is not confined to the Equal outcome of the settlement-date comparison'
-    if ok:
-        rep.ok('R7a', 'tie-break-on-equal-only', fn=pc.name, where=idx_cmp[0].where(), detail='read_index compared only on Ordering::Equal of the dates')
+            rep.violation('R7a', 'order-key-fields' + sfx, fn=f.name, where=where,
+                          detail='Tx ordering is %s; the processing order must be exactly (settlement_date, read_index), self against other'
+                                 % ordering.fmt(ch))
+    if chains[pc.name] is not None and chains[pc.name] == chains[oc.name]:
+        rep.ok('R7a', 'ord-forwards', fn=oc.name, detail='Ord::cmp and PartialOrd::partial_cmp evaluate to the same comparison chain', trivial=True)
     else:
-        rep.violation('R7a', 'tie-break-on-equal-only', fn=pc.name, where='%s:%d' % (pc.file, pc.line), detail=why)
-    # both outcomes are returned
-    fw = [c for c in oc.calls if c.callee == pc.name]
-    extra = [c for c in oc.calls if c.callee != pc.name and c.short not in ('unwrap', 'expect', 'unwrap_or')]
-    if fw and not extra:
-        rep.ok('R7a', 'ord-forwards', fn=oc.name, detail='Ord::cmp forwards to partial_cmp', trivial=True)
-    else:
-        rep.violation('R7a', 'ord-forwards', fn=oc.name, where='%s:%d' % (oc.file, oc.line), detail='Ord::cmp for Tx no longer just forwards to partial_cmp')
+        rep.violation('R7a', 'ord-forwards', fn=oc.name, where='%s:%d' % (oc.file, oc.line),
+                      detail='Ord::cmp (%s) and PartialOrd::partial_cmp (%s) of Tx differ' % (ordering.fmt(chains[oc.name]), ordering.fmt(chains[pc.name])))
 
 
 # ---------------------------------------------------------------------------------------------------- R7b
@@ -238,8 +211,10 @@ def r7d(prog, rep):
     p = prog.fn('portfolio::io::tx_csv::parse_tx_csv')
     if p is None:
         return
-    n = c18.index_stability(prog, rep, 'R7d', only_prefix='portfolio::io::tx_csv::')
-    if n < 2:
+    group = [g for g in prog.product_fns() if g.file == p.file and not mir.is_testsupport(g.name)]
+    pos_table = [g for g in group if any(POS_TABLE.search(t) for t in g.ty.values())]
+    n = c18.index_stability(prog, rep, 'R7d', only_prefix='portfolio::io::tx_csv::', also_types=POS_TABLE)
+    if n < (1 if pos_table else 2):
         rep.violation('R7d', 'anchor-lost:enumerate-sites', fn=p.name, detail='anchor lost: expected enumerate() over the header row and over each record (found %d)' % n)
     # the header text is normalised before the column-name lookup
     lookups = [c for c in p.calls if c.short in ('get', 'contains', 'contains_key', 'get_key_value') and
@@ -271,8 +246,78 @@ def r7d(prog, rep):
         else:
             rep.violation('R7d', 'portfolio::io::tx_csv::parse_tx_csv|same-index-stored-and-fetched', fn=p.name, where=gets[0].where(),
                           detail='the index stored for a header and the index used to fetch a record cell are not both the plain enumerate() position')
+    elif pos_table:
+        r7d_positional_table(prog, rep, p, group)
     else:
         rep.violation('R7d', 'anchor-lost:column-index-map', fn=p.name, detail='anchor lost: column index -> name map in parse_tx_csv')
+
+
+POS_TABLE = re.compile(r"(std::vec::Vec<|\[)std::option::Option<&('\w+ )?str>")
+POS_TABLE_READS = {'len', 'iter', 'contains', 'get', 'index', 'as_slice', 'deref', 'is_empty', 'first', 'last', 'with_capacity', 'new', 'clone',
+                   'as_ref', 'borrow', 'into_iter', 'capacity', 'reserve', 'to_vec'}
+
+
+def r7d_positional_table(prog, rep, p, group):
+    """column position -> name kept in a Vec<Option<&str>>: one push per header cell, in header order; fetched with the plain
+    enumerate() position of the record cell"""
+    k = 'portfolio::io::tx_csv::parse_tx_csv|same-index-stored-and-fetched'
+    pushes, others, fetches = [], [], []
+    for g in group:
+        for c in g.calls:
+            t0 = g.ty.get(c.arg_local(0) if c.args else -1, '') or ''
+            if not POS_TABLE.search(t0) or not re.search(r'(vec::Vec|slice|\[T\])', c.callee):
+                continue
+            if c.short == 'push':
+                pushes.append((g, c))
+            elif c.short in ('get', 'index', 'get_unchecked') and len(c.args) > 1:
+                fetches.append((g, c))
+            elif c.short not in POS_TABLE_READS:
+                others.append((g, c))
+    if len(pushes) != 1 or not fetches:
+        rep.violation('R7d', 'anchor-lost:column-index-map', fn=p.name,
+                      detail='anchor lost: column position -> name table in %s (%d push sites, %d fetch sites)' % (p.file, len(pushes), len(fetches)))
+        return
+    g, c = pushes[0]
+    if others:
+        og, oc = others[0]
+        rep.violation('R7d', k, fn=og.name, where=oc.where(), detail='the position -> name table is also changed by %s: positions no longer equal header columns' % oc.callee)
+        return
+    lp = g.loop_of(c.bb)
+    drv = [nc for (nc, h, body) in g.iterator_loops() if lp is not None and h == lp[0]]
+    why = None
+    if lp is None or not drv:
+        why = 'the name of a header cell is not pushed from a loop over the header row'
+    else:
+        h, body = lp
+        latches = [b for b in body if h in g.succ[b]]
+        if not all(g.dominates(c.bb, b) for b in latches):
+            why = 'some header cells are skipped without a push: later columns shift to the left'
+        if any(g.loop_of(c.bb)[0] != hh and c.bb in bb for hh, bb in g.loops if hh in body and hh != h):
+            why = 'the push sits in an inner loop: more than one entry per header cell'
+        org = mir.provenance(g, drv[0].args[0], pass_through=c18.ITER_PASS)
+        if not org.has_call(r'csv::StringRecord|headers|StringRecordIter'):
+            why = why or 'the loop that fills the table does not run over the header row'
+        ch = [x for x in org.calls if x.short in c18.LENCHG]
+        if ch:
+            why = 'the header row goes through %s before the positions are recorded' % ch[0].short
+    for fg, fc in fetches:
+        og = mir.provenance(fg, fc.args[1], follow_all_call_args=True)
+        binops = list(og.binops)
+        enum = og.has_call(r'Iterator::enumerate$')
+        if not enum and fg.kind == 'Closure' and (og.params - {1}):
+            # the index is (part of) the closure's argument: an item of the iterator the closure was handed to
+            for (par, hc, i) in mir.handed_to(prog, fg):
+                if i >= 1 and hc.decl.startswith('std::iter::'):
+                    o2 = mir.provenance(par, hc.args[0], pass_through=c18.ITER_PASS)
+                    enum = enum or o2.has_call(r'Iterator::enumerate$')
+                    binops += o2.binops
+        if not enum or binops:
+            why = why or 'a record cell is fetched with an index that is not the plain enumerate() position'
+    if why:
+        rep.violation('R7d', k, fn=g.name, where=c.where(), detail=why)
+    else:
+        rep.ok('R7d', k, fn=g.name, where=fetches[0][1].where(),
+               detail='one table entry is pushed per header cell, in header order; a record cell is looked up with its plain enumerate() position')
 
 # ---------------------------------------------------------------------------------------------------- R7e
 REORDER = SORTS | CUSTOM_SORTS | {'reverse', 'rev', 'dedup', 'dedup_by', 'dedup_by_key', 'retain', 'retain_mut', 'swap', 'rotate_left',
